@@ -30,9 +30,11 @@ func runC39(c *Ctx) {
 		entry := emptyState()
 		entry.add("version-not-installed-yet")
 		res := fl.Analyze(fn, entry)
-		n := c.Require("C39.O1", res, Or(MethodOn("Add", "recv.zombieTables"), MethodOn("Add", "recv.zombieBlobs")), "zombie sets updated before the new version is installed", []string{"version-not-installed-yet"})
-		if n < 2 {
-			c.Unresolved("C39.O1", "zombieTables.Add / zombieBlobs.Add not found in UpdateVersionLocked")
+		for _, set := range []string{"zombieTables", "zombieBlobs"} {
+			n := c.Require("C39.O1", res, MethodOn("Add", "recv."+set), set+" updated before the new version is installed", []string{"version-not-installed-yet"})
+			if n == 0 {
+				c.Unresolved("C39.O1", set+".Add not found in UpdateVersionLocked (or its helpers)")
+			}
 		}
 	}
 	// O1b: deleteObsoleteFiles
